@@ -184,7 +184,9 @@ func directField(e ast.Expr) bool {
 	return isId
 }
 
-func isParamOf(info *types.Info, fb *FuncBody, v *types.Var) bool { return paramIndex(info, fb, v) >= 0 }
+func isParamOf(info *types.Info, fb *FuncBody, v *types.Var) bool {
+	return paramIndex(info, fb, v) >= 0
+}
 
 func paramIndex(info *types.Info, fb *FuncBody, v *types.Var) int {
 	if fb == nil || fb.Type.Params == nil {
